@@ -16,7 +16,8 @@ from .. import graph_hist as H
 from .. import tsprops as T
 
 LEVEL = 'proof'
-NEEDS = ['Base', 'Names', 'Graph', 'GraphObs', 'GraphTS', 'GraphInv', 'Matrix', 'MatrixProofs', 'Skeleton', 'SkeletonProofs', 'Closed', 'CorrMatrix']
+NEEDS = ['Base', 'Names', 'Graph', 'GraphObs', 'GraphTS', 'GraphInv', 'Matrix', 'MatrixProofs', 'Skeleton', 'SkeletonProofs', 'Closed', 'CorrMatrix',
+         'TSGraph', 'LagMatrix', 'LagMatrixProofs', 'CorrLagMatrix']
 
 
 def tk_matrix(a):
@@ -102,6 +103,8 @@ def state_cases(rng, n, skeleton_first=False):
                 op = op[:3] + ('->',) + op[4:]
             elif mode < 0.5 and op[0] == 'add_edge':           # fully undirected
                 op = op[:3] + ('--',) + op[4:]
+            if i % 3:
+                H.warm_caches(g, rng, 0.3)        # exports taken before / between the mutations (incl. failing bulk adders)
             H.apply_op(g, op)
             ops.append(op)
         cases.append(dict(kind=kind, ops=ops, pool=gen.pool, hmat=C.hash_tokens(obs_matrix(g)),
@@ -290,6 +293,88 @@ def by_lag_predicate(g):
     return None
 
 
+# ---- lagged matrices: to_numpy_by_lag / from_adjacency_matrices against LagMatrix.v ---------------------
+LCOLS = ['to_numpy_by_lag_eq', 'roundtrip_validated_eq', 'roundtrip_unvalidated_eq', 'oracle_unvalidated', 'oracle_validated']
+
+
+def cq_bmat(a):
+    return C.cq_list(lambda row: C.cq_list(lambda x: C.cq_bool(bool(x)), row), numpy.asarray(a).tolist())
+
+
+def cq_lagdict(d):
+    return C.cq_list(lambda kv: f'({C.cq_Z(int(kv[0]))}, {cq_bmat(kv[1])})', list(d.items()))
+
+
+def cq_lcase(g):
+    def rt(v):
+        return T.cq_res(T.cq_tsg, lambda: TimeSeriesCausalGraph.from_adjacency_matrices(*g.to_numpy_by_lag(), validate=v))[0]
+    np_ = T.cq_res(lambda r: f'({cq_lagdict(r[0])}, {C.cq_names(r[1])})', g.to_numpy_by_lag)[0]
+    return ('{| lc_g := %s; lc_numpy := %s; lc_rt_true := %s; lc_rt_false := %s; lc_min := %s |}'
+            % (T.cq_tsg(g), np_, rt(True), rt(False), T.cq_res(T.cq_tsg, g.get_minimal_graph)[0]))
+
+
+def gen_lagdict(rng):
+    """an explicit dictionary of matrices for from_adjacency_matrices: mostly well formed, sometimes hostile"""
+    r = rng.choice([1, 2, 2, 3, 3])
+    keys = rng.sample([0, -1, -2, -3, -4], rng.randint(1, 3))
+    if rng.random() < 0.12:
+        keys[rng.randrange(len(keys))] = rng.choice([1, 2])        # future lag
+    dens = rng.choice([0.15, 0.3, 0.5])
+    d = {}
+    for k in keys:
+        rows = r if rng.random() > 0.06 else r + rng.choice([-1, 1])   # shape mismatch between keys
+        d[k] = [[int(rng.random() < dens) for _ in range(max(rows, 0))] for _ in range(max(rows, 0))]
+    x = rng.random()
+    pool = ['X', 'Y', 'Z', 'a b', 'lag', 'X lag(n=1)', 'v\n', 'future']
+    if x < 0.7:
+        names = rng.sample(pool[:5], r) if r <= 5 else None
+    elif x < 0.8:
+        names = None
+    elif x < 0.88:
+        names = rng.sample(pool, r)
+    elif x < 0.94:
+        names = [pool[0]] * r                                           # duplicates
+    else:
+        names = rng.sample(pool[:5], max(r - 1, 0) if rng.random() < 0.5 else min(r + 1, 5))
+    return d, names, rng.random() < 0.7, rng.random() < 0.7
+
+
+def cq_fdcase(d, names, cm, val):
+    exp = T.cq_res(T.cq_tsg, lambda: TimeSeriesCausalGraph.from_adjacency_matrices(
+        {k: numpy.array(v).reshape(len(v), len(v)) for k, v in d.items()}, names, construct_minimal=cm, validate=val))[0]
+    return ('{| fd_pairs := %s; fd_names := %s; fd_minimal := %s; fd_validate := %s; fd_expected := %s |}'
+            % (cq_lagdict(d), C.cq_opt(C.cq_names, names), C.cq_bool(cm), C.cq_bool(val), exp))
+
+
+def run_lag_cases(lrows, frows, chunk=40):
+    import re
+    wd = C.workdir()
+    files = []
+    hdr = C.COQ_HEADER + 'From CG Require Import Base TSGraph CorrTS LagMatrix CorrLagMatrix.\nLocal Open Scope N_scope.\n'
+    for i in range(0, len(lrows), chunk):
+        f = wd / f'lagl_{i // chunk}.v'
+        f.write_text(hdr + 'Definition cs : list lcase := [\n ' + ';\n '.join(lrows[i:i + chunk]) + '\n].\nEval vm_compute in (check_lcases cs).\n')
+        files.append(('l', i, f))
+    for i in range(0, len(frows), chunk):
+        f = wd / f'lagf_{i // chunk}.v'
+        f.write_text(hdr + 'Definition cs : list fdcase := [\n ' + ';\n '.join(frows[i:i + chunk]) + '\n].\nEval vm_compute in (fd_mismatches cs).\n')
+        files.append(('f', i, f))
+    res = C.run_coq_files([f for _, _, f in files], timeout=1800)
+    lout, fbad = [], []
+    for (kind, base, f), (_, rc, so, se) in zip(files, res):
+        if rc != 0:
+            raise RuntimeError(f'coqc failed on {f}: {se[-2000:]}')
+        blk = C.parse_eval_blocks(so)[0]
+        if kind == 'l':
+            for row in re.findall(r'\[([^\[\]]*)\]', blk):
+                lout.append([int(x) for x in re.findall(r'\d+', re.sub(r'%\w+', '', row))])
+        else:
+            fbad += [base + j for j in C.parse_N_list(blk)]
+    if len(lout) != len(lrows):
+        raise RuntimeError(f'Coq returned {len(lout)} rows for {len(lrows)} lagged-matrix cases')
+    return lout, fbad
+
+
 def malformed_refused():
     bad = []
     for a, names, exc in [
@@ -348,16 +433,56 @@ def check(run, tier, seed):
         if why and viol < 2:
             viol += 1
             run.violation(dict(kind=c['kind'], ops=c['ops'], why=why, replay_cmd='./check C08 --replay <this file>'), note=why[:200])
-    # lagged matrices on template graphs
+    # lagged matrices on template graphs: implementation-side predicate + model (LagMatrix.v) correspondence + Coq oracles
     nlag = 0
-    for _ in range(120 if tier == 'quick' else 2000):
-        steps, gm = T.gen_ts_graph(rng, rng.choice(['dag', 'dag0', 'consistent']))
+    lspecs, lrows = [], []
+    for i in range(120 if tier == 'quick' else 2000):
+        steps, gm = T.gen_ts_graph(rng, rng.choice(['dag', 'dag0', 'consistent', 'dag'] + (['wild'] if i % 5 == 0 else [])))
         g = T.build(steps, gm)
         nlag += 1
         why = by_lag_predicate(g)
         if why and viol < 2:
             viol += 1
             run.violation(dict(steps=steps, gmeta=gm, why=why, replay_cmd='./check C08 --replay <this file>'), note=why[:200])
+        lspecs.append((steps, gm))
+        lrows.append(cq_lcase(g))
+    fspecs = [gen_lagdict(rng) for _ in range(150 if tier == 'quick' else 2500)]
+    frows = [cq_fdcase(*f) for f in fspecs]
+    lout, fbad = run_lag_cases(lrows, frows)
+    ldiv = [(i, LCOLS[c]) for i, r in enumerate(lout) for c in (0, 1, 2) if r[c] == 0]
+    run.oblige(f'correspondence: to_numpy_by_lag and the lagged round trip (validate on/off) on {len(lrows)} time-series graphs', not ldiv,
+               '' if not ldiv else f'first divergence: column {ldiv[0][1]} steps={lspecs[ldiv[0][0]][0]!r}'[:480])
+    run.oblige(f'correspondence: from_adjacency_matrices on {len(frows)} explicit matrix dictionaries (incl. malformed)', not fbad,
+               '' if not fbad else f'first divergence: {fspecs[fbad[0]]!r}'[:480])
+    from collections import Counter as _Cn
+    run.coverage['lagged_oracle_outcomes'] = {f'{LCOLS[c]}={["fails", "holds", "premises-not-met"][k]}': v
+                                              for c in (3, 4) for k, v in _Cn(r[c] for r in lout).items()}
+    for i, r in enumerate(lout):
+        for c, why in ((3, 'from_adjacency_matrices(*to_numpy_by_lag(), validate=False) is not the minimal graph (Coq oracle)'),
+                       (4, 'from_adjacency_matrices(*to_numpy_by_lag()) is neither the minimal graph nor the refusal of a cyclic minimal graph (Coq oracle)')):
+            if r[c] == 0 and viol < 2:
+                viol += 1
+                run.violation(dict(steps=lspecs[i][0], gmeta=lspecs[i][1], why=why, replay_cmd='./check C08 --replay <this file>'), note=why)
+    for j in fbad[:1]:
+        d, names, cm, val = fspecs[j]
+        if viol < 2 and names is not None and len(set(names)) == len(names) and all(len(m) == len(names) for m in d.values()) and all(k <= 0 for k in d):
+            # a well-formed dictionary on which implementation and model disagree: check the entry clause directly
+            try:
+                h = TimeSeriesCausalGraph.from_adjacency_matrices({k: numpy.array(v).reshape(len(v), len(v)) for k, v in d.items()}, names,
+                                                                   construct_minimal=False, validate=False)
+                want = set()
+                for k, m in d.items():
+                    for a in range(len(names)):
+                        for b in range(len(names)):
+                            if m[a][b] and not (k == 0 and a == b):
+                                want.add(frozenset([(names[a], k), (names[b], 0)]))
+                got = {frozenset([(e.source.variable_name, e.source.time_lag), (e.destination.variable_name, e.destination.time_lag)]) for e in h.get_edges()}
+                if got != want:
+                    viol += 1
+                    run.violation(dict(matrices={str(k): v for k, v in d.items()}, names=names, why='from_adjacency_matrices does not create exactly one edge per non-zero entry',
+                                       got=sorted(map(sorted, got)), want=sorted(map(sorted, want))), note='from_adjacency_matrices: edges differ from the non-zero entries')
+            except Exception:  # noqa: BLE001
+                pass
     mal = malformed_refused()
     run.oblige('malformed matrices refused (non-square, 1-D, 3-D, entries 2 / -1 / 0.5, wrong name count)', not mal, '; '.join(mal)[:400])
     for m in mal[:1]:
